@@ -24,11 +24,7 @@ func dispatch() pbt.Dispatch {
 }
 
 func probes() pbt.Probes {
-	p := pbt.KnownCaseProbes("known", func(part string, raw json.RawMessage) pbt.Verdict { return fedPart.CheckRaw(raw) })
-	for id, def := range crashProbes() {
-		p[id] = def
-	}
-	return p
+	return pbt.KnownCaseProbes("known", func(part string, raw json.RawMessage) pbt.Verdict { return fedPart.CheckRaw(raw) })
 }
 
 func TestMinimize(t *testing.T) {
